@@ -32,8 +32,10 @@ import (
 	"context"
 	"encoding/json"
 	"fmt"
+	"maps"
 	"math/rand"
 	"reflect"
+	"strings"
 	"sync"
 
 	"connectrpc.com/connect"
@@ -165,26 +167,142 @@ func mergeDiff(from, to any) (any, bool) {
 
 var initialTree = tree(initialConfig())
 
+// routesTree is the generic document of a route list (YAML key names).
+func routesTree(c *gcfg.Config) any {
+	b, err := yaml.Marshal(c.Config.Lite.Routes)
+	if err != nil {
+		panic(err)
+	}
+	var v any
+	if err := yaml.Unmarshal(b, &v); err != nil {
+		panic(err)
+	}
+	if v == nil {
+		return []any{}
+	}
+	return v
+}
+
+// initRoutesOnly reports whether the candidate is, by construction (mkCand), the initial
+// configuration with another route list. Its documents can then be assembled from the initial
+// configuration's document and the document of the routes alone, which is much cheaper under the
+// race detector than encoding the whole configuration for every request.
+func initRoutesOnly(cd cand) bool {
+	return (cd.class == clsRoute || cd.class == clsInvalid) && cd.desc != "identical-to-last-seen"
+}
+
+// yamlSplice holds the initial configuration's YAML document cut around the block of
+// config.lite.routes; ok=false (fall back to encoding the whole value) unless a self-test showed
+// that the spliced document decodes to exactly the candidate for every route shape.
+var yamlSplice = sync.OnceValue(func() (sp struct {
+	head, tail, indent string
+	ok                 bool
+}) {
+	b, err := yaml.Marshal(initialConfig())
+	if err != nil {
+		return
+	}
+	lines := strings.SplitAfter(string(b), "\n")
+	at := -1
+	for i, l := range lines {
+		if strings.TrimSpace(l) == "routes:" && i > 0 {
+			// the one below config.lite: the next line is the first list item, indented deeper
+			ind := l[:len(l)-len(strings.TrimLeft(l, " "))]
+			if i+1 < len(lines) && strings.HasPrefix(lines[i+1], ind+" ") && strings.HasPrefix(strings.TrimLeft(lines[i+1], " "), "- host:") {
+				if at >= 0 {
+					return // ambiguous
+				}
+				at = i
+			}
+		}
+	}
+	if at < 0 {
+		return
+	}
+	keyIndent := lines[at][:len(lines[at])-len(strings.TrimLeft(lines[at], " "))]
+	itemIndent := lines[at+1][:len(lines[at+1])-len(strings.TrimLeft(lines[at+1], " "))]
+	end := at + 1
+	for end < len(lines) && strings.HasPrefix(lines[end], itemIndent) {
+		end++
+	}
+	sp.head = strings.Join(lines[:at], "") + keyIndent + "routes:"
+	sp.tail = strings.Join(lines[end:], "")
+	sp.indent = itemIndent
+	sp.ok = true
+	// self-test over all route shapes, an empty list and a mutilated route
+	rng := rand.New(rand.NewSource(1))
+	for uid := 0; uid < 12 && sp.ok; uid++ {
+		for _, cls := range []string{clsRoute, clsInvalid} {
+			cd := mkCand(rng, cls, uid, uid%3)
+			var back gcfg.Config
+			if err := yaml.Unmarshal([]byte(splicedYAML(sp.head, sp.tail, sp.indent, cd.cfg)), &back); err != nil || keyOf(&back) != cd.key {
+				sp.ok = false
+			}
+		}
+	}
+	return
+})
+
+func splicedYAML(head, tail, indent string, c *gcfg.Config) string {
+	if len(c.Config.Lite.Routes) == 0 {
+		return head + " []\n" + tail
+	}
+	b, err := yaml.Marshal(c.Config.Lite.Routes)
+	if err != nil {
+		panic(err)
+	}
+	var sb strings.Builder
+	sb.Grow(len(head) + len(tail) + 2*len(b))
+	sb.WriteString(head)
+	sb.WriteString("\n")
+	for _, l := range strings.SplitAfter(string(b), "\n") {
+		if l != "" {
+			sb.WriteString(indent)
+			sb.WriteString(l)
+		}
+	}
+	sb.WriteString(tail)
+	return sb.String()
+}
+
 func apiPayload(rng *rand.Rand, cd cand, form string) (payload string, isPatch bool) {
 	switch form {
 	case "yaml":
+		if sp := yamlSplice(); sp.ok && initRoutesOnly(cd) {
+			return splicedYAML(sp.head, sp.tail, sp.indent, cd.cfg), false
+		}
 		b, err := yaml.Marshal(cd.cfg)
 		if err != nil {
 			panic(err)
 		}
 		return string(b), false
 	case "json":
-		b, err := json.Marshal(tree(cd.cfg))
+		var doc any
+		if initRoutesOnly(cd) {
+			// the initial document with the routes exchanged (copied along the path only)
+			top := maps.Clone(initialTree)
+			cfgNode := maps.Clone(top["config"].(map[string]any))
+			liteNode := maps.Clone(cfgNode["lite"].(map[string]any))
+			liteNode["routes"] = routesTree(cd.cfg)
+			cfgNode["lite"] = liteNode
+			top["config"] = cfgNode
+			doc = top
+		} else {
+			doc = tree(cd.cfg)
+		}
+		b, err := json.Marshal(doc)
 		if err != nil {
 			panic(err)
 		}
 		return string(b), false
 	case "patch":
-		t := tree(cd.cfg)
-		d, _ := mergeDiff(initialTree, t)
-		patch, _ := d.(map[string]any)
-		if patch == nil {
-			patch = map[string]any{}
+		patch := map[string]any{}
+		// candidates of the route / invalid classes are the initial configuration with other
+		// routes by construction (mkCand); everything else is compared member by member
+		if !initRoutesOnly(cd) {
+			if d, changed := mergeDiff(initialTree, tree(cd.cfg)); changed {
+				patch, _ = d.(map[string]any)
+			}
 		}
 		// always name the complete route list
 		cfgNode, _ := patch["config"].(map[string]any)
@@ -197,16 +315,7 @@ func apiPayload(rng *rand.Rand, cd cand, form string) (payload string, isPatch b
 			liteNode = map[string]any{}
 			cfgNode["lite"] = liteNode
 		}
-		var routes any
-		if c, ok := t["config"].(map[string]any); ok {
-			if l, ok := c["lite"].(map[string]any); ok {
-				routes = l["routes"]
-			}
-		}
-		if routes == nil {
-			routes = []any{}
-		}
-		liteNode["routes"] = routes
+		liteNode["routes"] = routesTree(cd.cfg)
 		b, err := json.Marshal(patch)
 		if err != nil {
 			panic(err)
@@ -246,10 +355,20 @@ func apiValidateOK(i opIn, o opOut) bool {
 	}
 }
 
-// apiApplyStep is the sequential specification of ApplyConfig. relaxed=true is NOT part of the
-// oracle: classifyAPI uses it to name a non-linearizable history (version check not atomic with
-// the commit).
-func apiApplyStep(s state, i opIn, o opOut, relaxed bool) (bool, any) {
+// apiApplyStep is the sequential specification of ApplyConfig. relax != 0 is NOT part of the
+// oracle: classifyAPI uses the weaker specifications to name a non-linearizable history.
+//
+//	relaxPatchBase  if_match must be current, but a merge patch may have been evaluated against
+//	                an earlier configuration than the one current at the linearisation point
+//	relaxVersion    additionally an apply may commit although its if_match is not current
+const (
+	relaxNone = iota
+	relaxPatchBase
+	relaxVersion
+)
+
+func apiApplyStep(s state, i opIn, o opOut, relax int) (bool, any) {
+	relaxed := relax == relaxVersion
 	var grounds []string
 	if i.ExpRaw == "" {
 		grounds = append(grounds, apiInvalidArgument) // if_match is required
@@ -278,10 +397,9 @@ func apiApplyStep(s state, i opIn, o opOut, relaxed bool) (bool, any) {
 	if o.Code != apiOK {
 		return false, s
 	}
-	if relaxed {
-		// committed whatever the version was; the empty patch may have been evaluated against an
-		// earlier configuration (then the state is unknown to this two-key model: keep the content,
-		// the routes key is only used by "routes" reads)
+	if relax != relaxNone {
+		// the empty patch may have been evaluated against an earlier configuration (the routes key
+		// of that one is unknown to this two-key model; it is only used by "routes" reads)
 		if i.Noop {
 			return true, state{o.VerKey, relaxedRoutes}
 		}
@@ -299,10 +417,8 @@ func apiApplyStep(s state, i opIn, o opOut, relaxed bool) (bool, any) {
 
 const relaxedRoutes = "?relaxed"
 
-// classifyAPI names a non-linearizable history in which API applies took part: if the history IS
-// linearizable once API applies are allowed to commit without their if_match being current (and
-// the empty patch to re-publish an earlier configuration), the defect is the missing atomicity of
-// the handler's version check and commit.
+// classifyAPI names a non-linearizable history in which API applies took part, by the weakest of
+// the relaxed specifications (see apiApplyStep) under which the history IS linearizable.
 func classifyAPI(ops []porcupine.Operation, init state) string {
 	apiAccepted := false
 	for _, o := range ops {
@@ -313,21 +429,29 @@ func classifyAPI(ops []porcupine.Operation, init state) string {
 	if !apiAccepted {
 		return ""
 	}
-	m := model
-	m.Init = func() any { return init }
-	strict := model.Step
-	m.Step = func(st, in, out any) (bool, any) {
-		s, i, o := st.(state), in.(opIn), out.(opOut)
-		if i.Kind == "api-apply" {
-			return apiApplyStep(s, i, o, true)
+	for _, lvl := range []struct {
+		relax int
+		sig   string
+	}{
+		{relaxPatchBase, "history-not-linearizable-api-merge-patch-evaluated-against-an-earlier-configuration"},
+		{relaxVersion, "history-not-linearizable-api-apply-committed-although-if-match-was-not-current"},
+	} {
+		m := model
+		m.Init = func() any { return init }
+		strict := model.Step
+		m.Step = func(st, in, out any) (bool, any) {
+			s, i, o := st.(state), in.(opIn), out.(opOut)
+			if i.Kind == "api-apply" {
+				return apiApplyStep(s, i, o, lvl.relax)
+			}
+			if i.Kind == "routes" && s.R == relaxedRoutes {
+				return true, s
+			}
+			return strict(st, in, out)
 		}
-		if i.Kind == "routes" && s.R == relaxedRoutes {
-			return true, s
+		if porcupine.CheckOperations(m, ops) {
+			return lvl.sig
 		}
-		return strict(st, in, out)
-	}
-	if res := porcupine.CheckOperations(m, ops); res {
-		return "history-not-linearizable-api-apply-committed-although-if-match-was-not-current"
 	}
 	return "history-not-linearizable-with-api-applies"
 }
